@@ -751,13 +751,24 @@ impl World {
         listed.keys().filter(|k| self.keys.contains_key(k)).max_by_key(|k| self.keys[k].1.clone()).copied()
     }
 
+    /// the farthest record the store remembers is the farthest listed key (one pass; also run on the large worlds of
+    /// the clean-up histories, where the full comparison of `check_views` is skipped — seed C10-r6m1: a clean-up that
+    /// leaves `farthest_record` naming a record it has just removed)
+    fn check_far(&mut self, listed: &BTreeMap<u64, String>) {
+        let far = rs::farthest_record(self.st()).map(|(k, d)| (self.key_id(&k), format!("{d:?}")));
+        let want_far = self.own_farthest(listed).map(|k| (k.to_string(), format!("Distance({})", self.keys[&k].1)));
+        if far != want_far {
+            self.fail("views-agree", format!("farthest_record is {far:?}, the farthest listed key is {want_far:?}"));
+        }
+    }
+
     /// views of the held set agree (model independent, checked after every mutating op)
     fn check_views(&mut self) {
         if self.keys.len() > 64 {
             return;
         }
-        let store = self.st();
         let listed = self.listed();
+        let store = self.st();
         let mut want: Vec<(BigUint, u64)> = listed.keys().filter(|k| self.keys.contains_key(k)).map(|k| (self.keys[k].1.clone(), *k)).collect();
         want.sort();
         let got: Vec<(BigUint, String)> = rs::records_by_distance(store).into_iter().map(|(d, k)| (u256_to_big(d), self.key_id(&k))).collect();
@@ -767,11 +778,7 @@ impl World {
             let w: Vec<&String> = want_s.iter().map(|x| &x.1).collect();
             self.fail("views-agree", format!("records_by_distance holds keys {g:?}, the listed keys by true distance are {w:?}"));
         }
-        let far = rs::farthest_record(self.st()).map(|(k, d)| (self.key_id(&k), format!("{d:?}")));
-        let want_far = self.own_farthest(&listed).map(|k| (k.to_string(), format!("Distance({})", self.keys[&k].1)));
-        if far != want_far {
-            self.fail("views-agree", format!("farthest_record is {far:?}, the farthest listed key is {want_far:?}"));
-        }
+        self.check_far(&listed);
         // with every put acknowledged before the next: held + in flight <= capacity + file deletions lost in stops
         let inflight = self.pending_tasks().iter().filter(|(_, t)| matches!(t, TKind::Write { .. })).count() + self.notes.len() + self.awaiting.len();
         if self.disciplined && listed.len() + inflight > self.max.max(1) + self.lost_deletes {
@@ -2165,6 +2172,10 @@ impl Runner {
                         let _ = catch_unwind(AssertUnwindSafe(|| {
                             w.check_views();
                             w.check_settled();
+                            if w.keys.len() > 64 && matches!(ws[0], "cleanup" | "remove") {
+                                let listed = w.listed();
+                                w.check_far(&listed);
+                            }
                         }));
                     }
                 }
